@@ -69,12 +69,12 @@ func blockerFrameName(t string) string {
 
 // Case is one program of the space (JSON: the replay contract).
 type Case struct {
-	Family string   `json:"family"` // tail | blocked | transparency-only
+	Family string   `json:"family"`        // tail | blocked | transparency-only
 	Def    string   `json:"def,omitempty"` // "" (top-level defun) | labels (the loop is a set of labels-bound closures)
-	Shape  []string `json:"shape"`  // outermost first
-	Topo   int      `json:"topo"`   // cycle length 1..3
-	Args   string   `json:"args"`   // acc | rest | key
-	Err    string   `json:"err"`    // none | base | first
+	Shape  []string `json:"shape"`         // outermost first
+	Topo   int      `json:"topo"`          // cycle length 1..3
+	Args   string   `json:"args"`          // acc | rest | key
+	Err    string   `json:"err"`           // none | base | first
 	N      int      `json:"n"`
 	// Ns is set for the constant-stack relation: the iteration counts whose
 	// maximum stack heights were compared.
